@@ -16,8 +16,8 @@ from vlib.evidence import Result
 PROPERTY = "C12"
 LEVEL = "model_checking"
 BOUNDS = {
-    "quick": "preemption bound 2; every pair of operations from a 13-operation alphabet on 2 threads (x initial value / validator / watch variants), 2 threads x 2 ops for a 5-op core, 3 threads x 1 op for a 4-op core; single-thread termination of every op over the 9-value pathological universe",
-    "thorough": "preemption bound 3 for 2-thread scenarios, bound 2 for 3 threads x 1 op over the 7-op core and 2 threads x 2 ops over the 7-op core",
+    "quick": "preemption bound 2; every pair of operations from a 13-operation alphabet on 2 threads (x initial value / validator variants; again without a watch at bound 1), 2 threads x 2 ops for a 5-op core, 3 threads x 1 op for a 4-op core; single-thread termination of every op over the 9-value pathological universe",
+    "thorough": "preemption bound 3 for 2-thread scenarios (2 for the watch-free repeats), bound 2 for 3 threads x 1 op over the 7-op core and 2 threads x 2 ops over the 7-op core",
 }
 RULE = (
     "engine A: for each scenario (initial value, validator, watch, per-thread operation lists) every schedule with at most k preemptions is executed on "
@@ -486,7 +486,7 @@ def scenarios(tier):
         for b in pair_ops[i:]:
             if "deref" in (a, b) and a != b:
                 continue
-            scs.append((dict(base, watch=False, threads=[[a], [b]]), 2 if quick else 3))
+            scs.append((dict(base, watch=False, threads=[[a], [b]]), 1 if quick else 2))
     # type-sensitive: atom holding 1, reset to 1.0 / true races with a type-observing swap
     for a, b in [("swap!typeobs", "reset!1.0"), ("swap!typeobs", "reset!1"), ("cas1->8", "reset!1.0"), ("swap-vals!inc", "reset!1.0"), ("Atom.swap-inc", "reset!1.0"), ("swap!typeobs", "swap!typeobs")]:
         scs.append((dict(init=1, validator="none", watch=True, threads=[[a], [b]]), 2 if quick else 3))
